@@ -263,10 +263,20 @@ class ResourceManager:
             else:
                 assert False # :nocov:
 
-        value = resolve(resource,
-            *merge_options(resource, dir, xdr),
-            path=(f"{resource.name}_{resource.number}",),
-            attrs=resource.attrs)
+        # A refused request must leave the allocation unchanged.
+        phys_reqd = self._phys_reqd.copy()
+        io_clocks = self._io_clocks.copy()
+        pins_len  = len(self._pins)
+        try:
+            value = resolve(resource,
+                *merge_options(resource, dir, xdr),
+                path=(f"{resource.name}_{resource.number}",),
+                attrs=resource.attrs)
+        except Exception:
+            self._phys_reqd = phys_reqd
+            self._io_clocks = io_clocks
+            del self._pins[pins_len:]
+            raise
         self._requested[resource.name, resource.number] = value
         return value
 
